@@ -7,6 +7,8 @@
 use std::io::Write;
 use svh::*;
 
+#[path = "arms.rs"]
+pub mod arms;
 #[path = "oracle_c06.rs"]
 pub mod c06;
 #[path = "oracle_c07.rs"]
